@@ -1024,7 +1024,7 @@ class C19(Check):
                    "list/set/dict/instance/__dict__/bytearray/deque objects carry identity labels",
                    "the registry cache (C16) and lazy forward-reference state are covered by the fresh-declaration and "
                    "fresh-interpreter replays only (not modelled in Lean here)"]
-    budget = {"quick": 2500, "thorough": 20000}
+    budget = {"quick": 6000, "thorough": 40000}
     search_budget = {"quick": 1500, "thorough": 12000}
 
     def cases(self, tier, rng, n):
